@@ -129,7 +129,21 @@ pub fn build_case(case: &Value, env: Arc<Environment>) -> EvalCase {
     let mut vehicle = vb.build().unwrap();
     vehicle.costs.fixed = costs[0] as f64;
 
-    let goal = build_goal(transport.clone(), case["obj"].as_str().unwrap_or("distance"), dims, vec![]);
+    // optional maximize-value layer (C20): values by job id, read per job or per (actor, job)
+    let mut extra = vec![];
+    if let Some(vals) = case.get("values") {
+        let mut map: std::collections::HashMap<String, f64> = i64s(&vals["tour"]).into_iter().enumerate().map(|(i, v)| (format!("t{i}"), v as f64)).collect();
+        map.insert("x".to_string(), vals["job"].as_i64().unwrap() as f64);
+        let map = Arc::new(map);
+        let lookup = move |job: &Job| job.dimens().get_job_id().and_then(|id| map.get(id)).copied().unwrap_or(0.);
+        let read: JobReadValueFn = if vals["mode"].as_str() == Some("actor") {
+            JobReadValueFn::Right(Arc::new(move |_, job| lookup(job)))
+        } else {
+            JobReadValueFn::Left(Arc::new(move |job| lookup(job)))
+        };
+        extra.push(create_maximize_total_job_value_feature("value", read, Arc::new(|job, _| job), ViolationCode(3)).unwrap());
+    }
+    let goal = build_goal(transport.clone(), case["obj"].as_str().unwrap_or("distance"), dims, extra);
     let problem = Arc::new(
         ProblemBuilder::default()
             .add_jobs(jobs.into_iter())
